@@ -1,6 +1,6 @@
 """C11 — Packets are parsed independently; generators and definitions do not interfere.
 
-Kernel E-hist + interleavings.  (i) every stream of <= 4 packets over a 6-packet palette (two
+Kernel E-hist + interleavings.  (i) every stream of <= 4 packets over a 7-packet palette (two
 recognised APIDs with different layouts, an unrecognised APID, a too-long and a too-short packet)
 under all 8 option combinations equals the concatenation of the per-packet solo results; (ii) every
 lattice-path interleaving of next() calls over 2 (and 3) generators sharing one definition gives
@@ -56,7 +56,10 @@ def palette_packets():
     a_short = framing.mk_packet(bytes([0x40 | 0x01, 0x11, 0x22, 0x33, 0x45]), apid=1, seqcount=12)              # LEN=2, string cut short
     # unrecognised although it carries a recognised APID (recognition depends on more than the APID)
     unrec_same_apid = framing.mk_packet(bytes([0x40 | 0x15, 0xDE, 0xAD, 0x07, 0x41, 0x42]), apid=1, type_=1, seqcount=13)
-    return [a_clean, b_clean, unrec, a_long, a_short, unrec_same_apid]
+    # decoding raises inside the container walk (binary field runs off the end of the packet): ends its own generator,
+    # must not affect anything else that uses the definition afterwards
+    a_raising = framing.mk_packet(bytes([0xE0 | 0x03, 0x77]), apid=1, seqcount=14)  # LEN=7, only one byte follows
+    return [a_clean, b_clean, unrec, a_long, a_short, unrec_same_apid, a_raising]
 
 
 def obs_item(p):
@@ -116,7 +119,11 @@ def _task_streams(task):
                 stream = b"".join(pal[i] for i in seq)
                 for oi, opts in enumerate(OPTS):
                     got, _ = run_stream(defn, stream, opts)
-                    want = [x for i in seq for x in solo[(oi, i)]]
+                    want = []
+                    for i in seq:
+                        want += solo[(oi, i)]
+                        if want and want[-1][0] == "raised":
+                            break  # an exception ends the generator: nothing after it can be yielded
                     t.evals += 1
                     t.transitions += len(seq)
                     t.traces += 1
@@ -129,6 +136,29 @@ def _task_streams(task):
                                     note=f"first difference at item #{first}: got {str(got[first] if first < len(got) else None)[:200]} "
                                          f"want {str(want[first] if first < len(want) else None)[:200]}")
                 t.nontrivial += len(set(seq)) >= 2
+        # a raw packet object from the framer wrapped and parsed several times (header triage first, another definition object, ...)
+        from space_packet_parser.packets import CCSDSPacket, ccsds_generator
+        for pi, pb in enumerate(pal):
+            raw_obj = next(ccsds_generator(pb))
+            first = None
+            for attempt_no, (d, root) in enumerate(((defn, None), (defn, None), (load_doc(doc), None), (defn, None))):
+                with observed_warnings():
+                    try:
+                        out = d.parse_ccsds_packet(CCSDSPacket(raw_data=raw_obj))
+                        r = ("packet", tuple(map(tuple, items_of(out))), out.raw_data.pos)
+                    except Exception as e:  # noqa: BLE001
+                        pd = getattr(e, "partial_data", None)
+                        r = ("raised", exc_names(e)[0], tuple(map(tuple, items_of(pd))) if pd is not None else None)
+                t.evals += 1
+                if first is None:
+                    first = r
+                elif r != first:
+                    t.violation({"kind": "reparse-differs", "attempt": attempt_no}, {"packet_index": pi, "via": task["via"]}, expected=first[:2], observed=r[:2],
+                                note="parsing the same raw packet object again gives a different result")
+                    break
+            if raw_obj.pos != 0:
+                t.violation({"kind": "parse-moved-callers-cursor"}, {"packet_index": pi, "via": task["via"]}, observed=raw_obj.pos,
+                            note="parsing a packet built from a raw packet object moved that object's own cursor")
         after = canon_definition(defn)
         if after != before or ET.tostring(defn.to_xml_tree()) != xml_before:
             t.violation({"kind": "definition-modified"}, {"via": task["via"], "seqs": len(task["seqs"])},
@@ -137,7 +167,7 @@ def _task_streams(task):
         if ch:
             t.notes.append("package-level state changed while the check ran (not a violation by itself): " + ", ".join(ch[:6]))
     if task["seqs"]:
-        t.sample({"stream": list(task["seqs"][-1]), "palette": ["A-clean", "B-clean", "unrecognised", "A-too-long", "A-too-short", "unrecognised-with-a-recognised-APID"], "options": "all 8 combinations"})
+        t.sample({"stream": list(task["seqs"][-1]), "palette": ["A-clean", "B-clean", "unrecognised", "A-too-long", "A-too-short", "unrecognised-with-a-recognised-APID", "raising (binary field beyond the end)"], "options": "all 8 combinations"})
     return t
 
 
@@ -274,7 +304,7 @@ def run(ctx):
         "transitions": tally.transitions,
         "traces_validated_against_impl": tally.traces,
         "exhaustive": True,
-        "bound": (f"(i) every stream of <= 4 packets over a 6-packet palette ({len(seqs)} streams) x all 8 combinations of parse_bad_pkts / "
+        "bound": (f"(i) every stream of <= 4 packets over a 7-packet palette ({len(seqs)} streams) x all 8 combinations of parse_bad_pkts / "
                   "yield_unrecognized_packet_errors / ccsds_headers_only vs. per-packet solo results; (ii) k=2: every ordered pair of 6 generators "
                   "(two with combine_segmented_packets, one over a scripted socket) x ALL lattice-path interleavings of their next() calls up to exhaustion; "
                   f"k=3: {len(triples)} triples with <= {2 if ctx.quick else 3} steps each, all interleavings; (iii) definition canon + written XML unchanged; "
